@@ -6,5 +6,7 @@ CONSTANTS
   Rich = TRUE
   Sweep = TRUE
   AsWas = FALSE
+  Rep = {}
+  CheckIndependent = TRUE
 INVARIANTS Refines
 CHECK_DEADLOCK FALSE
